@@ -26,22 +26,30 @@ struct TimedTaskImpl {
   TimedTaskImpl(size_t times, double next, double per, F&& f, Schedulable& sched, bool stdy)
       : timesToRun(times), nextAbsTime(next), period(per), steady(stdy) {
     func = [&sched, f = std::move(f), this](std::shared_ptr<TimedTaskImpl> me) {
+      DISPENSO_VERIF_POINT("TtFnLoadFlags", this);
       if (flags.load(std::memory_order_acquire) & kFFlagsCancelled) {
         return;
       }
 
+      DISPENSO_VERIF_POINT("TtFnIncInProgress", this);
       inProgress.fetch_add(1, std::memory_order_acq_rel);
 
       auto wrap = [&f, this, me = std::move(me)]() mutable {
+        DISPENSO_VERIF_POINT("TtWrLoadFlags", this);
         if (!(flags.load(std::memory_order_acquire) & kFFlagsCancelled)) {
           if (!f()) {
+            DISPENSO_VERIF_POINT("TtWrStoreTimes", this);
             timesToRun.store(0, std::memory_order_release);
+            DISPENSO_VERIF_POINT("TtWrSetCancelled", this);
             flags.fetch_or(kFFlagsCancelled, std::memory_order_acq_rel);
+            DISPENSO_VERIF_POINT("TtWrClearFunc", this);
             func = {};
           }
+          DISPENSO_VERIF_POINT("TtWrIncCount", this);
           count.fetch_add(1, std::memory_order_acq_rel);
         }
 
+        DISPENSO_VERIF_POINT("TtWrDecInProgress", this);
         inProgress.fetch_sub(1, std::memory_order_release);
         me.reset();
       };
